@@ -95,6 +95,16 @@ def check_one_iterator(ctx, prog, R):
         if ok:
             o = leaf_origins(prog, f, news[0][1]["args"][0], at=news[0][0])
             ok = bool(o) and all(x.kind == "param" and x.data == 1 and x.proj and x.proj[-1].endswith("FileDbMap.0") for x in o)
+        if not news:
+            # ... or hands the same map to a sibling constructor and returns what it built (`fn into_iter(self) { self.iter() }`)
+            sib = [(b, t) for b, t in f.calls() if not f.is_cleanup(b) and any(x.id in {g.id for g in ctors if g is not f} for x in prog.targets(t, f)[0])]
+            crate = [(b, t) for b, t in f.calls() if not f.is_cleanup(b) and (t.get("callee") or "").startswith("abyssiniandb::")]
+            ok = len(sib) == 1 and len(crate) == 1
+            if ok:
+                o = leaf_origins(prog, f, sib[0][1]["args"][0], at=sib[0][0])
+                ret = leaf_origins(prog, f, {"k": "cp", "pl": {"l": 0, "p": []}}, terminal_only=True)
+                ok = bool(o) and all(x.kind == "param" and x.data == 1 and not [p_ for p_ in x.proj if p_ != "deref"] for x in o) \
+                    and bool(ret) and all(x.kind == "call" and x.block == sib[0][0] and not x.proj for x in ret)
         ctx.check(ok, "one-iterator", "ctor:%s" % short(f.id), "%s does not build its iterator from the map's shared state" % f.id, where=where(f))
 
 
